@@ -49,6 +49,12 @@ PrefixKept(ns, tn) ==
     /\ \A i \in 1..(Len(tn) - 1) : ns[i] = tn[i]
     /\ (tn # <<>> => ns[Len(tn)].pos = tn[Len(tn)].pos)
 
+(* C13: no comment, environment or math node anywhere in the tree *)
+RECURSIVE InertSeq(_, _)
+InertNode(n) == n.k \notin {"comment", "env", "math"} /\ InertSeq(Kids(n), 1)
+InertSeq(ns, i) == IF i > Len(ns) THEN TRUE ELSE InertNode(ns[i]) /\ InertSeq(ns, i + 1)
+Inert(ns) == InertSeq(ns, 1)
+
 RECURSIVE Concat(_)
 Concat(sq) == IF sq = <<>> THEN <<>> ELSE Head(sq) \o Concat(Tail(sq))
 VerbatimReproduces(s, verbs) == Concat(verbs) = s
